@@ -27,6 +27,8 @@ func main() {
 		runC02(cfg)
 	case "c04http":
 		runC04HTTP(cfg)
+	case "c06http":
+		runC06HTTP(cfg)
 	default:
 		fmt.Fprintln(os.Stderr, "unknown VERIF_MODE", mode)
 		os.Exit(2)
